@@ -7,6 +7,7 @@ import (
 	"encoding/hex"
 	"fmt"
 	"strconv"
+	"strings"
 
 	mybase "github.com/cossacklabs/acra/decryptor/mysql/base"
 
@@ -200,7 +201,7 @@ func parseValue(s string) ([]byte, bool, int, bool) {
 var myTypeCodes = map[string]int{"int32": 3, "int64": 8, "str": 254, "bytes": 252}
 
 func run(r *core.Run) {
-	r.Rule = "exhaustive cross product database × declared type × failure policy (with valid defaults) × result format × reader (value revealed / not revealed) × value class (boundary integers, non-integers, empty, non-UTF-8, envelope-like blobs, plain look-alikes), plus random values; non-trivial when the column has a declared type or the value is revealed; distinct by the whole op line"
+	r.Rule = "exhaustive cross product database × kind of column setting (encryption only, searchable, masked, tokenized; type by name or by database id; envelope and re-encryption options) × declared type × failure policy (with valid defaults) × result format × reader (value revealed / not revealed) × value class (boundary integers, non-integers, empty, non-UTF-8, envelope-like blobs, plain look-alikes), plus random values; non-trivial when the column has a declared type or the value is revealed; distinct by the whole op line"
 	rd := r.Rand
 	r.Exhaustive = true
 
@@ -253,34 +254,155 @@ func run(r *core.Run) {
 		}
 	}
 
+	// ---- 1b. every kind of column setting: accepted?, type aware?, and the descriptions the proxies rewrite ----
+	runColumns(r)
+
 	// ---- 2. the read path ----
 	blobs := storedBlobs(rd, r.N(2, 40))
 	for _, db := range []string{"pg", "my"} {
-		for _, typ := range types {
-			var pols []policyCase
-			pols = append(pols, policyCase{"empty", nil}, policyCase{"ciphertext", nil}, policyCase{"error", nil}, policyCase{"default_value", nil})
-			for _, d := range validDefaults(typ) {
-				pols = append(pols, policyCase{"default_value", sp(d)})
-			}
-			if ds := validDefaults(typ); len(ds) > 0 {
-				pols = append(pols, policyCase{"empty", sp(ds[len(ds)-1])})
-			}
-			for _, pol := range pols {
-				for _, binaryFmt := range []bool{false, true} {
-					runRead(r, db, typ, pol, binaryFmt, blobs)
+		for _, kind := range kinds {
+			for _, typ := range types {
+				for _, pol := range readPolicies(kind, typ) {
+					for _, binaryFmt := range []bool{false, true} {
+						bs := blobs
+						if kind != "plain" && len(bs) > 9 {
+							bs = bs[:9] // the random values of the thorough tier go to the encryption-only columns
+						}
+						runRead(r, db, kind, typ, pol, binaryFmt, bs)
+					}
 				}
 			}
 		}
 	}
 
 	// ---- 3. the factory-wired chains with real keys ----
-	runChain(r)
+	for _, kind := range kinds {
+		runChain(r, kind)
+	}
+}
+
+// failure policies exercised on the read path for a kind of setting (all of them for encryption-only columns; the ones
+// the configuration loader can accept for the others, plus one it rejects)
+func readPolicies(kind, typ string) []policyCase {
+	var pols []policyCase
+	switch kind {
+	case "plain":
+		pols = append(pols, policyCase{"empty", nil}, policyCase{"ciphertext", nil}, policyCase{"error", nil}, policyCase{"default_value", nil})
+		for _, d := range validDefaults(typ) {
+			pols = append(pols, policyCase{"default_value", sp(d)})
+		}
+		if ds := validDefaults(typ); len(ds) > 0 {
+			pols = append(pols, policyCase{"empty", sp(ds[len(ds)-1])})
+		}
+	case "searchable":
+		pols = append(pols, policyCase{"empty", nil}, policyCase{"ciphertext", nil}, policyCase{"error", nil})
+		if ds := validDefaults(typ); len(ds) > 1 {
+			pols = append(pols, policyCase{"default_value", sp(ds[1])}, policyCase{"empty", sp(ds[1])})
+		}
+	default: // masked, tokenized: neither response_on_fail nor a default is accepted
+		pols = append(pols, policyCase{"empty", nil}, policyCase{"error", nil})
+	}
+	return pols
+}
+
+// runColumns: the configuration of one column of every kind through Acra's loader and the model of Init, then the real
+// description handlers (PostgreSQL: RowDescription, ParameterDescription, Parse; MySQL: column definition).
+func runColumns(r *core.Run) {
+	accepted := map[string]int{}
+	one := func(db string, spc colSpec) {
+		probe := 253 // MySQL: the stored column is VAR_STRING
+		if db == "pg" {
+			probe = pgOids[spc.typ] // PostgreSQL: the type the client declares for the parameter in Parse
+			if probe == 0 {
+				probe = 25
+			}
+		}
+		line := fmt.Sprintf("C19.column.%s %s %d", db, spc.tokens(), probe)
+		r.Begin(line, true, "stream:structured", "column:"+db, "kind:"+spc.kind, "type:"+spc.typ)
+		got := r.Do(line)
+		if !strings.HasPrefix(got, "ok ") {
+			r.Check(got == core.Err, "column-outcome", db+" column: "+got)
+			return
+		}
+		r.Tag("column:accepted")
+		if spc.typ != "none" {
+			accepted[db+"/"+spc.kind+"/"+spc.typ]++
+		}
+		if spc.typ == "none" {
+			return
+		}
+		if db == "pg" {
+			var pol string
+			var aware, binop bool
+			var row, param, parse int
+			if n, _ := fmt.Sscanf(got, "ok %s aware=%t binop=%t row=%d param=%d parse=%d", &pol, &aware, &binop, &row, &param, &parse); !r.Check(n == 6, "column-outcome", "pg column: "+got) {
+				return
+			}
+			if spc.kind == "tokenized" {
+				return // tokens are stored under the declared type itself: the database's own description stands
+			}
+			// the value of such a column is delivered encoded as the declared type (sections 2 and 3): the client must be
+			// told that type – for result columns, for statement parameters – and the database must be told bytea
+			want := pgOids[spc.typ]
+			r.Check(row == want, "describe-pg", fmt.Sprintf("pg %s column of type %s: RowDescription announces OID %d for the bytea column, the declared type has %d", spc.kind, spc.typ, row, want))
+			r.Check(param == want, "describe-pg-param", fmt.Sprintf("pg %s column of type %s: ParameterDescription announces OID %d, the declared type has %d", spc.kind, spc.typ, param, want))
+			r.Check(parse == 17, "describe-pg-parse", fmt.Sprintf("pg %s column of type %s: the parameter declared as %d by the client is passed to the database as %d, the column is bytea (17)", spc.kind, spc.typ, probe, parse))
+		} else {
+			var pol string
+			var binop bool
+			var ftype int
+			if n, _ := fmt.Sscanf(got, "ok %s binop=%t type=%d", &pol, &binop, &ftype); !r.Check(n == 3, "column-outcome", "mysql column: "+got) {
+				return
+			}
+			r.Check(ftype == myTypeCodes[spc.typ], "describe-my", fmt.Sprintf("mysql %s column of type %s: column definition announces type %d, the declared type has %d", spc.kind, spc.typ, ftype, myTypeCodes[spc.typ]))
+		}
+	}
+	for _, db := range []string{"pg", "my"} {
+		for _, kind := range kinds {
+			for _, typ := range types {
+				dfs := []*string{nil}
+				if ds := validDefaults(typ); len(ds) > 1 {
+					dfs = append(dfs, sp(ds[1]))
+				} else if typ == "none" {
+					dfs = append(dfs, sp("x"))
+				}
+				for _, onFail := range []string{"empty", "ciphertext", "default_value", "error"} {
+					for _, d := range dfs {
+						for _, byID := range []bool{false, true} {
+							if typ == "none" && byID {
+								continue
+							}
+							for _, tokAndType := range []bool{false, true} {
+								if tokAndType && kind != "tokenized" {
+									continue
+								}
+								one(db, colSpec{kind: kind, typ: typ, onFail: onFail, dflt: d, byID: byID, tokAndType: tokAndType, reencrypt: true})
+							}
+						}
+					}
+				}
+				// the other crypto envelope / no re-encryption
+				for _, env := range [][2]bool{{true, true}, {false, false}, {true, false}} {
+					for _, onFail := range []string{"empty", "error"} {
+						one(db, colSpec{kind: kind, typ: typ, onFail: onFail, acrastruct: env[0], reencrypt: env[1]})
+					}
+				}
+			}
+		}
+		// the cross product is not empty where it matters: every kind can be combined with a data type
+		for _, k := range []string{"plain/int32", "plain/int64", "plain/str", "plain/bytes", "searchable/int32", "searchable/int64", "searchable/str", "searchable/bytes",
+			"masked/str", "masked/bytes", "tokenized/int32", "tokenized/int64", "tokenized/str", "tokenized/bytes"} {
+			r.Begin("accepted-"+db+"/"+k, true, "stream:structured", "column:accepted-kinds")
+			r.Check(accepted[db+"/"+k] > 0, "setting-kind-accepted", fmt.Sprintf("%s: no %s column with a data type is accepted by the configuration loader", db, k))
+		}
+	}
 }
 
 var pgOids = map[string]int{"int32": 23, "int64": 20, "str": 25, "bytes": 17}
 
-// runChain: the factory-wired subscriber chains with real keys and real envelopes.
-func runChain(r *core.Run) {
+// runChain: the factory-wired subscriber chains with real keys and what the real write path stores for a column of the
+// given kind (envelope; hash ++ envelope; clear part ++ envelope; token).
+func runChain(r *core.Run, kind string) {
 	rd := r.Rand
 	plains := map[string][][]byte{
 		"int32": {[]byte("0"), []byte("-2147483648"), []byte("2147483647"), []byte("42")},
@@ -288,8 +410,33 @@ func runChain(r *core.Run) {
 		"str":   {[]byte("hello"), {0xff, 0xfe, 0x00, 0x41}, []byte("naïve ✓ secret-marker-12345")},
 		"bytes": {[]byte("bin\x00\xff secret-marker-67890"), {0, 1, 2, 3}, []byte("\\x41")},
 	}
+	if kind == "tokenized" {
+		// a string token is a string: keep to text the tokenizer can hold
+		plains["str"] = [][]byte{[]byte("hello"), []byte("naive secret-marker-12345"), []byte("x")}
+	}
+	op := func(db string) string {
+		if kind == "plain" {
+			return "C19.chain." + db
+		}
+		return "C19.chaink." + db + " " + kind
+	}
+	readOp := "read"
+	if kind != "plain" {
+		readOp = "readk " + kind
+	}
 	for _, typ := range []string{"int32", "int64", "str", "bytes"} {
-		pols := []policyCase{{"ciphertext", nil}, {"error", nil}, {"empty", nil}, {"default_value", sp(validDefaults(typ)[1])}}
+		var pols []policyCase
+		switch kind {
+		case "plain", "searchable":
+			pols = []policyCase{{"ciphertext", nil}, {"error", nil}, {"empty", nil}, {"default_value", sp(validDefaults(typ)[1])}}
+		case "masked":
+			if typ == "int32" || typ == "int64" {
+				continue // rejected by the configuration loader (section 1b)
+			}
+			pols = []policyCase{{"empty", nil}}
+		default:
+			pols = []policyCase{{"empty", nil}}
+		}
 		for _, pol := range pols {
 			dt, ut, bt := defaultTokens(pol.dflt)
 			effective := pol.onFail
@@ -304,71 +451,89 @@ func runChain(r *core.Run) {
 					}
 					for _, m := range ps {
 						// ---- PostgreSQL ----
-						line := fmt.Sprintf("C19.chain.pg %s %s %s %s %s %s", typ, pol.onFail, dt, fmtName(binaryFmt), reader, core.Hex(m))
-						r.Begin(line, true, "stream:structured", "chain:pg", "reader:"+reader, "type:"+typ, "policy:"+effective, "fmt:"+fmtName(binaryFmt))
+						line := fmt.Sprintf("%s %s %s %s %s %s %s", op("pg"), typ, pol.onFail, dt, fmtName(binaryFmt), reader, core.Hex(m))
+						r.Begin(line, true, "stream:structured", "chain:pg", "kind:"+kind, "reader:"+reader, "type:"+typ, "policy:"+effective, "fmt:"+fmtName(binaryFmt))
 						got := r.Impl(line)
 						var oid int
-						var kind, val, wire string
-						n, _ := fmt.Sscanf(got, "desc %d %s", &oid, &kind)
+						var kindOut, val, wire string
+						n, _ := fmt.Sscanf(got, "desc %d %s", &oid, &kindOut)
 						if !r.Check(n == 2, "chain-outcome", "pg chain: "+got) {
 							continue
 						}
-						if kind == "value" {
+						if kindOut == "value" {
 							fmt.Sscanf(got, "desc %d value %s wire %s", &oid, &val, &wire)
 						} else {
-							fmt.Sscanf(got, "desc %d "+kind+" wire %s", &oid, &wire)
+							fmt.Sscanf(got, "desc %d "+kindOut+" wire %s", &oid, &wire)
 						}
-						r.Check(oid == pgOids[typ], "describe-pg", fmt.Sprintf("pg %s: column described with OID %d, declared type has %d", typ, oid, pgOids[typ]))
+						r.Check(oid == pgOids[typ], "describe-pg", fmt.Sprintf("pg %s %s: column described with OID %d, declared type has %d", kind, typ, oid, pgOids[typ]))
 						// the model, told whether the chain reveals the value, must predict the delivered bytes
-						reveal := "none"
-						if reader == "owner" {
-							reveal = core.Hex(m)
+						// (what a masked / tokenized column shows to another reader is the business of C11 / C10)
+						if reader == "owner" || kind == "plain" || kind == "searchable" {
+							reveal := "none"
+							if reader == "owner" {
+								reveal = core.Hex(m)
+							}
+							model := r.ModelOnly(fmt.Sprintf("C19.pg.%s %s %s %s %s %s %s %s %s", readOp, typ, pol.onFail, dt, ut, bt, fmtName(binaryFmt), reveal, wire))
+							implShape := kindOut
+							if kindOut == "value" {
+								implShape = "value " + val + " false"
+							}
+							r.Check(model == implShape, "chain-vs-model", fmt.Sprintf("pg chain %s/%s/%s/%s/%s delivers %q, the model (reveal=%v) predicts %q", kind, typ, effective, fmtName(binaryFmt), reader, implShape, reader == "owner", model))
 						}
-						model := r.ModelOnly(fmt.Sprintf("C19.pg.read %s %s %s %s %s %s %s %s", typ, pol.onFail, dt, ut, bt, fmtName(binaryFmt), reveal, wire))
-						implShape := kind
-						if kind == "value" {
-							implShape = "value " + val + " false"
-						}
-						r.Check(model == implShape, "chain-vs-model", fmt.Sprintf("pg chain %s/%s/%s/%s delivers %q, the model (reveal=%v) predicts %q", typ, effective, fmtName(binaryFmt), reader, implShape, reader == "owner", model))
-						checkChainValue(r, "pg", typ, effective, pol, binaryFmt, reader, m, kind, core.UnHex(orDash(val)))
+						checkChainValue(r, "pg", kind, typ, effective, pol, binaryFmt, reader, m, kindOut, core.UnHex(orDash(val)))
 
 						// ---- MySQL ----
-						line = fmt.Sprintf("C19.chain.my %s %s %s %s %s %s", typ, pol.onFail, dt, fmtName(binaryFmt), reader, core.Hex(m))
-						r.Begin(line, true, "stream:structured", "chain:my", "reader:"+reader, "type:"+typ, "policy:"+effective, "fmt:"+fmtName(binaryFmt))
+						line = fmt.Sprintf("%s %s %s %s %s %s %s", op("my"), typ, pol.onFail, dt, fmtName(binaryFmt), reader, core.Hex(m))
+						r.Begin(line, true, "stream:structured", "chain:my", "kind:"+kind, "reader:"+reader, "type:"+typ, "policy:"+effective, "fmt:"+fmtName(binaryFmt))
 						got = r.Impl(line)
 						var ftype int
 						var rows string
 						if n, _ := fmt.Sscanf(got, "type %d rows %s", &ftype, &rows); !r.Check(n == 2, "chain-outcome", "mysql chain: "+got) {
 							continue
 						}
-						kind = "value"
+						kindOut = "value"
 						if rows == "encerr" || rows == core.Err {
-							kind = rows
+							kindOut = rows
 						}
 						var out []byte
-						if kind == "value" {
+						if kindOut == "value" {
 							out = core.UnHex(rows)
 						}
-						checkChainValue(r, "my", typ, effective, pol, binaryFmt, reader, m, kind, out)
-						if kind == "value" {
-							delivered := specEncode("my", typ, binaryFmt, m)
-							if reader != "owner" && effective == "default_value" {
-								dv := []byte(*pol.dflt)
-								if typ == "bytes" {
-									dv, _ = base64.StdEncoding.DecodeString(*pol.dflt)
-								}
-								delivered = specEncode("my", typ, binaryFmt, dv)
+						checkChainValue(r, "my", kind, typ, effective, pol, binaryFmt, reader, m, kindOut, out)
+						if kindOut != "value" {
+							continue
+						}
+						if kind == "tokenized" {
+							// the column is stored under the type of its tokens: whichever of the two the definition says,
+							// the value has to be readable under it
+							intCode := ftype == 3 || ftype == 8
+							okType := ftype == myTypeCodes[typ] || (typ == "str" && ftype == 253)
+							r.Check(okType && myReadable(ftype, binaryFmt, out) && intCode == (typ == "int32" || typ == "int64"), "describe-my", fmt.Sprintf("mysql tokenized %s: value %x delivered under column type %d", typ, out, ftype))
+							continue
+						}
+						delivered := specEncode("my", typ, binaryFmt, m)
+						if reader != "owner" && effective == "default_value" {
+							dv := []byte(*pol.dflt)
+							if typ == "bytes" {
+								dv, _ = base64.StdEncoding.DecodeString(*pol.dflt)
 							}
-							if bytes.Equal(out, delivered) {
-								r.Check(ftype == myTypeCodes[typ], "describe-my", fmt.Sprintf("mysql %s: typed value delivered but column described as %d", typ, ftype))
-							} else {
-								r.Check(ftype == 253, "describe-my", fmt.Sprintf("mysql %s: stored value delivered but column described as %d", typ, ftype))
-							}
+							delivered = specEncode("my", typ, binaryFmt, dv)
+						}
+						if kind == "masked" && reader != "owner" {
+							delivered = specEncode("my", typ, binaryFmt, maskedForm(m))
+						}
+						if bytes.Equal(out, delivered) {
+							r.Check(ftype == myTypeCodes[typ], "describe-my", fmt.Sprintf("mysql %s %s: typed value delivered but column described as %d", kind, typ, ftype))
+						} else {
+							r.Check(ftype == 253, "describe-my", fmt.Sprintf("mysql %s %s: stored value delivered but column described as %d", kind, typ, ftype))
 						}
 					}
 				}
 			}
 		}
+	}
+	if kind != "plain" {
+		return
 	}
 	// ---- MySQL result sets whose rows differ in revealability: the column definition is sent once for all rows ----
 	for _, typ := range []string{"int32", "int64"} {
@@ -399,6 +564,32 @@ func runChain(r *core.Run) {
 	}
 }
 
+// maskedForm: what a reader who cannot decrypt sees of a masked column (plaintext_side left, plaintext_length 2)
+func maskedForm(m []byte) []byte {
+	n := maskPlainLen
+	if n > len(m) {
+		n = len(m)
+	}
+	return append(append([]byte{}, m[:n]...), []byte(maskPattern)...)
+}
+
+// myReadable: a MySQL field of column type `code` can be read in the given protocol
+func myReadable(code int, binaryFmt bool, out []byte) bool {
+	width := map[int]int{3: 4, 8: 8}[code]
+	if width != 0 && binaryFmt {
+		return len(out) == width
+	}
+	v, n, err := mybase.LengthEncodedString(out)
+	if err != nil || n != len(out) {
+		return false
+	}
+	if width != 0 {
+		_, err := strconv.ParseInt(string(v), 10, width*8)
+		return err == nil
+	}
+	return true
+}
+
 func orDash(s string) string {
 	if s == "" {
 		return "-"
@@ -407,30 +598,52 @@ func orDash(s string) string {
 }
 
 // what a reader may see, judged on the implementation's output alone
-func checkChainValue(r *core.Run, db, typ, effective string, pol policyCase, binaryFmt bool, reader string, m []byte, kind string, out []byte) {
+func checkChainValue(r *core.Run, db, kind, typ, effective string, pol policyCase, binaryFmt bool, reader string, m []byte, kindOut string, out []byte) {
 	if reader == "owner" {
 		want := specEncode(db, typ, binaryFmt, m)
-		r.Check(kind == "value" && bytes.Equal(out, want), "typed-owner-chain", fmt.Sprintf("%s %s %s: owner receives %s %x for %q, want %x", db, typ, fmtName(binaryFmt), kind, out, m, want))
+		r.Check(kindOut == "value" && bytes.Equal(out, want), "typed-owner-chain", fmt.Sprintf("%s %s %s %s: owner receives %s %x for %q, want %x", db, kind, typ, fmtName(binaryFmt), kindOut, out, m, want))
 		return
 	}
-	switch effective {
-	case "error":
-		r.Check(kind == "encerr", "typed-policy-error-chain", fmt.Sprintf("%s %s: policy error but %s reader gets %s %x", db, typ, reader, kind, out))
-	case "default_value":
+	switch {
+	case kind == "masked":
+		// the masked form, as a value of the declared type
+		want := specEncode(db, typ, binaryFmt, maskedForm(m))
+		r.Check(kindOut == "value" && bytes.Equal(out, want), "typed-masked-chain", fmt.Sprintf("%s masked %s %s: %s reader receives %s %x, want the masked form %x", db, typ, fmtName(binaryFmt), reader, kindOut, out, want))
+	case kind == "tokenized":
+		// the token (a value of the declared type) or an error, never anything else
+		if kindOut == "value" {
+			okTyped := true
+			if typ == "int32" || typ == "int64" {
+				if db == "pg" {
+					if binaryFmt {
+						okTyped = len(out) == bitsOf(typ)/8
+					} else {
+						_, err := strconv.ParseInt(string(out), 10, bitsOf(typ))
+						okTyped = err == nil
+					}
+				} else {
+					okTyped = myReadable(myTypeCodes[typ], binaryFmt, out)
+				}
+			}
+			r.Check(okTyped, "typed-token-chain", fmt.Sprintf("%s tokenized %s %s: %s reader receives %x, not a value of the declared type", db, typ, fmtName(binaryFmt), reader, out))
+		}
+	case effective == "error":
+		r.Check(kindOut == "encerr", "typed-policy-error-chain", fmt.Sprintf("%s %s %s: policy error but %s reader gets %s %x", db, kind, typ, reader, kindOut, out))
+	case effective == "default_value":
 		dv := []byte(*pol.dflt)
 		if typ == "bytes" {
 			dv, _ = base64.StdEncoding.DecodeString(*pol.dflt)
 		}
 		want := specEncode(db, typ, binaryFmt, dv)
-		r.Check(kind == "value" && bytes.Equal(out, want), "typed-policy-default-chain", fmt.Sprintf("%s %s: policy default but %s reader gets %s %x", db, typ, reader, kind, out))
+		r.Check(kindOut == "value" && bytes.Equal(out, want), "typed-policy-default-chain", fmt.Sprintf("%s %s %s: policy default but %s reader gets %s %x", db, kind, typ, reader, kindOut, out))
 	default:
-		r.Check(kind == "value", "typed-policy-ciphertext-chain", fmt.Sprintf("%s %s: policy ciphertext but %s reader gets %s", db, typ, reader, kind))
+		r.Check(kindOut == "value", "typed-policy-ciphertext-chain", fmt.Sprintf("%s %s %s: policy ciphertext but %s reader gets %s", db, kind, typ, reader, kindOut))
 	}
 	// never the plaintext, whole or in part (marker of ≥ 8 bytes)
-	if kind == "value" {
-		r.Check(!bytes.Equal(out, specEncode(db, typ, binaryFmt, m)) || effective == "default_value" && bytes.Equal(specEncode(db, typ, binaryFmt, m), out), "reveal-to-non-owner", fmt.Sprintf("%s %s: %s reader receives the owner's value", db, typ, reader))
+	if kindOut == "value" {
+		r.Check(!bytes.Equal(out, specEncode(db, typ, binaryFmt, m)) || effective == "default_value" && bytes.Equal(specEncode(db, typ, binaryFmt, m), out), "reveal-to-non-owner", fmt.Sprintf("%s %s %s: %s reader receives the owner's value", db, kind, typ, reader))
 		if i := bytes.Index(m, []byte("secret-marker")); i >= 0 {
-			r.Check(!bytes.Contains(out, []byte("secret-marker")), "partial-reveal", fmt.Sprintf("%s %s: %s reader receives part of the plaintext", db, typ, reader))
+			r.Check(!bytes.Contains(out, []byte("secret-marker")), "partial-reveal", fmt.Sprintf("%s %s %s: %s reader receives part of the plaintext", db, kind, typ, reader))
 		}
 	}
 }
@@ -447,7 +660,7 @@ func fmtName(b bool) string {
 	return "text"
 }
 
-func runRead(r *core.Run, db, typ string, pol policyCase, binaryFmt bool, blobs [][]byte) {
+func runRead(r *core.Run, db, kind, typ string, pol policyCase, binaryFmt bool, blobs [][]byte) {
 	rd := r.Rand
 	dt, ut, bt := defaultTokens(pol.dflt)
 	head := fmt.Sprintf("%s %s %s %s %s %s", typ, pol.onFail, dt, ut, bt, fmtName(binaryFmt))
@@ -470,17 +683,25 @@ func runRead(r *core.Run, db, typ string, pol policyCase, binaryFmt bool, blobs 
 			wires = append(wires, [2][]byte{b, b})
 		}
 	}
+	op, ktag := "read", "read:"
+	if kind != "plain" {
+		op, ktag = "readk "+kind, "read-"+kind+":"
+	}
 	line := func(reveal string, wire []byte) string {
 		if db == "pg" {
-			return fmt.Sprintf("C19.pg.read %s %s %s", head, reveal, core.Hex(wire))
+			return fmt.Sprintf("C19.pg.%s %s %s %s", op, head, reveal, core.Hex(wire))
 		}
-		return fmt.Sprintf("C19.my.read %s 253 %s %s", head, reveal, core.Hex(wire))
+		return fmt.Sprintf("C19.my.%s %s 253 %s %s", op, head, reveal, core.Hex(wire))
 	}
 
 	// (a) the owner: the value is revealed
-	for _, m := range plainValues(typ, rd, r.N(3, 60)) {
+	random := r.N(3, 60)
+	if kind != "plain" {
+		random = r.N(3, 6)
+	}
+	for _, m := range plainValues(typ, rd, random) {
 		w := wires[rd.Intn(len(wires))]
-		r.Begin(line(core.Hex(m), w[0]), true, "stream:structured", "read:"+db, "reader:owner", "type:"+typ, "policy:"+effective, "fmt:"+fmtName(binaryFmt))
+		r.Begin(line(core.Hex(m), w[0]), true, "stream:structured", ktag+db, "reader:owner", "type:"+typ, "policy:"+effective, "fmt:"+fmtName(binaryFmt))
 		rev := core.Hex(m)
 		got := r.Do(line(rev, w[0]))
 		if typ == "none" || got == "badsetting" {
@@ -515,7 +736,7 @@ func runRead(r *core.Run, db, typ string, pol policyCase, binaryFmt bool, blobs 
 	// (b) a reader for whom the value is not revealed
 	for _, w := range wires {
 		wire, blob := w[0], w[1]
-		r.Begin(line("none", wire), typ != "none", "stream:structured", "read:"+db, "reader:nokeys", "type:"+typ, "policy:"+effective, "fmt:"+fmtName(binaryFmt))
+		r.Begin(line("none", wire), typ != "none", "stream:structured", ktag+db, "reader:nokeys", "type:"+typ, "policy:"+effective, "fmt:"+fmtName(binaryFmt))
 		got := r.Do(line("none", wire))
 		if got == "badsetting" {
 			continue // the configuration loader rejects this combination (compared with the model above)
@@ -559,14 +780,14 @@ func runRead(r *core.Run, db, typ string, pol policyCase, binaryFmt bool, blobs 
 	// PostgreSQL text values that merely look like bytea hex ("\\x" + non-hex) or are the empty bytea ("\\x")
 	if db == "pg" && !binaryFmt {
 		for _, w := range [][]byte{[]byte("\\xZZ"), []byte("\\x4"), []byte("\\x")} {
-			r.Begin(line("none", w), true, "stream:boundary", "read:"+db, "reader:nokeys-lookalike", "type:"+typ)
+			r.Begin(line("none", w), true, "stream:boundary", ktag+db, "reader:nokeys-lookalike", "type:"+typ)
 			r.Do(line("none", w))
 		}
 	}
 	// plain stored values that parse under the declared type are delivered as that type
 	if typ == "int32" || typ == "int64" {
 		for _, p := range storedPlain {
-			r.Begin(line("none", p), true, "stream:boundary", "read:"+db, "reader:nokeys-plain", "type:"+typ)
+			r.Begin(line("none", p), true, "stream:boundary", ktag+db, "reader:nokeys-plain", "type:"+typ)
 			r.Do(line("none", p))
 		}
 	}
